@@ -406,6 +406,64 @@ func nbnsScenarios(c *vf.Ctx, B int) []*scenario {
 					stopAndDrain(x, s)
 				}})
 			}
+			// pipelining: both requests are on the wire before the first response is read
+			for _, mode := range []string{"one-write", "two-writes", "three-requests-split-mid-frame"} {
+				mode := mode
+				out = append(out, &scenario{name: "nbns-TCPServer-pipelined/" + mode, keys: respKeys, bound: B, body: func(x *exec) {
+					s, t := im.mk()
+					seed(t)
+					if err := s.Start(); err != nil {
+						panic("harness: start: " + err.Error())
+					}
+					conn, err := vnet.Dial("tcp", "127.0.0.1:137")
+					if err != nil {
+						panic("harness: dial: " + err.Error())
+					}
+					fr := func(rq []byte) []byte { return append(binary.BigEndian.AppendUint16(nil, uint16(len(rq))), rq...) }
+					want := []struct {
+						id   uint16
+						name string
+						ip   net.IP
+					}{{0x1111, "NX", ipX}, {0x2222, "NY", ipY}, {0x3333, "NZ", ipZ}}
+					f1, f2, f3 := fr(mkQuery(0x1111, 0, "NX")), fr(mkQueryPad(0x2222, 0, "NY", 40)), fr(mkQuery(0x3333, 0, "NZ"))
+					n := 2
+					switch mode {
+					case "one-write":
+						conn.Write(append(append([]byte{}, f1...), f2...))
+					case "two-writes":
+						conn.Write(f1)
+						conn.Write(f2)
+					default:
+						n = 3
+						all := append(append(append([]byte{}, f1...), f2...), f3...)
+						cut := len(f1) + 1 // inside the second frame's length prefix
+						conn.Write(all[:cut])
+						conn.Write(all[cut:])
+					}
+					var got []resp
+					for i := 0; i < n; i++ {
+						conn.SetReadDeadline(vtime.Now().Add(time.Second))
+						var l [2]byte
+						if _, err := io.ReadFull(conn, l[:]); err != nil {
+							break
+						}
+						body := make([]byte, binary.BigEndian.Uint16(l[:]))
+						if _, err := io.ReadFull(conn, body); err != nil {
+							break
+						}
+						got = append(got, parseResp(body))
+					}
+					x.obs("pipelined got %v", got)
+					if len(got) != n {
+						x.fail("exactly-one-response-per-request", "%d pipelined requests on one connection received %d responses: %v", n, len(got), got)
+					}
+					for i, r := range got {
+						checkQueryResp(x, fmt.Sprintf("pipelined#%d", i), want[i].id, want[i].name, want[i].ip, []resp{r}, false)
+					}
+					conn.Close()
+					stopAndDrain(x, s)
+				}})
+			}
 			out = append(out, &scenario{name: "nbns-TCPServer-stop-with-idle-connection", keys: respKeys, bound: B, body: func(x *exec) {
 				s, t := im.mk()
 				seed(t)
@@ -557,4 +615,102 @@ func classifyOpcode(x *exec, im impl, opc int) string {
 		return "not-implemented"
 	}
 	return fmt.Sprintf("unknown(rcodes %d,%d,%d)", rc(r1, ok1), rc(r2, ok2), rc(r3, ok3))
+}
+
+// ---------------------------------------------------------------- challenger / defender / redirect
+
+// challengeScenarios: NameChallenger.ChallengeOwnership acts as a client — it must accept only the
+// response that carries its own transaction id and lists the challenged owner.
+func challengeScenarios(c *vf.Ctx, B int) []*scenario {
+	var out []*scenario
+	owner := net.IP{127, 0, 0, 9}
+	for _, mode := range []string{"right-id-owner", "wrong-id-only", "wrong-id-then-right", "name-error", "other-address", "silent"} {
+		mode := mode
+		want := map[string]bool{"right-id-owner": true, "wrong-id-then-right": true}[mode]
+		out = append(out, &scenario{name: "nbns-challenge/" + mode, keys: []string{"challenge-accepts-only-own-id-and-owner", "no-goroutine-left-after-stop"}, bound: B, maxSteps: 3000, body: func(x *exec) {
+			t := nbtns.NewNetBIOSNameServer(false)
+			ch := nbtns.NewNameChallenger(t, nbtns.NewPacketHandler(t))
+			peer, err := vnet.ListenUDP("udp", &net.UDPAddr{IP: owner, Port: 137})
+			if err != nil {
+				panic("harness: " + err.Error())
+			}
+			rt := vrt.GoNamed("peer", func() {
+				buf := make([]byte, 2048)
+				for {
+					peer.SetReadDeadline(vtime.Now().Add(20 * time.Second))
+					n, from, err := peer.ReadFromUDP(buf)
+					if err != nil {
+						return
+					}
+					var rq nbtns.NBTNSPacket
+					if _, err := rq.Unmarshal(append([]byte(nil), buf[:n]...)); err != nil || len(rq.Questions) != 1 {
+						x.fail("harness", "peer cannot parse the challenge: %v", err)
+						return
+					}
+					reply := func(id uint16, rcode uint16, ip net.IP) {
+						rp := &nbtns.NBTNSPacket{Header: nbtns.NBTNSHeader{TransactionID: id, Flags: nbtns.FlagResponse | nbtns.FlagAuthoritative | rcode}}
+						if ip != nil {
+							rp.Header.Answers = 1
+							rp.Answers = []nbtns.NBTNSResourceRecord{{Name: rq.Questions[0].Name, Type: 0x20, Class: 1, TTL: 60, RDLength: uint16(len(ip)), RData: ip}}
+						}
+						b, err := rp.Marshal()
+						if err != nil {
+							panic("harness: " + err.Error())
+						}
+						peer.WriteToUDP(b, from)
+					}
+					id := rq.Header.TransactionID
+					switch mode {
+					case "right-id-owner":
+						reply(id, 0, owner)
+					case "wrong-id-only":
+						reply(id^0x0101, 0, owner)
+					case "wrong-id-then-right":
+						reply(id^0x0101, 0, net.IP{10, 6, 6, 6})
+						reply(id, 0, owner)
+					case "name-error":
+						reply(id, nbtns.RcodeNameError, nil)
+					case "other-address":
+						reply(id, 0, net.IP{10, 6, 6, 6})
+					}
+				}
+			})
+			got, err := ch.ChallengeOwnership("WKS", owner)
+			x.obs("challenge -> %v %v", got, err)
+			if err != nil || got != want {
+				x.fail("challenge-accepts-only-own-id-and-owner", "peer behaviour %q: ChallengeOwnership returned (%v, %v), expected (%v, nil)", mode, got, err, want)
+			}
+			peer.Close()
+			vrt.Join(rt)
+			if alive := vrt.Drain(120 * sec); len(alive) > 0 {
+				x.fail("no-goroutine-left-after-stop", "threads alive: %v", alive)
+			}
+		}})
+	}
+	// defender and redirect manager only act on name-query REQUESTS: all 16 opcodes x request/response bit
+	for opc := 0; opc < 16; opc++ {
+		for _, rbit := range []uint16{0, nbtns.FlagResponse} {
+			opc, rbit := opc, rbit
+			out = append(out, &scenario{name: fmt.Sprintf("nbns-opcode/DefendName+HandleRedirect/opcode-%02d-r%d", opc, rbit>>15), keys: []string{"routed-to-rfc1002-handler"}, bound: 0, body: func(x *exec) {
+				t := nbtns.NewNetBIOSNameServer(false)
+				t.RegisterName("P", nbtns.Unique, ipX, time.Hour)
+				ch := nbtns.NewNameChallenger(t, nbtns.NewPacketHandler(t))
+				rq := &nbtns.NBTNSPacket{Header: nbtns.NBTNSHeader{TransactionID: 7, Flags: uint16(opc)<<11 | rbit, Questions: 1},
+					Questions: []nbtns.NBTNSQuestion{{Name: &nbtns.NetBIOSName{Name: "P", ScopeID: "corp"}, Type: 0x20, Class: 1}}}
+				var rp nbtns.NBTNSPacket
+				ch.DefendName(rq, &rp)
+				defended := len(rp.Answers) > 0
+				rm := nbtns.NewRedirectManager()
+				rm.AddRedirect("corp", net.IP{10, 1, 1, 1}, 137)
+				var rp2 nbtns.NBTNSPacket
+				redirected := rm.HandleRedirect(rq, &rp2)
+				want := opc == 0 && rbit == 0
+				x.obs("opcode %d r=%d defended=%v redirected=%v", opc, rbit>>15, defended, redirected)
+				if defended != want || redirected != want {
+					x.fail("routed-to-rfc1002-handler", "a packet with opcode %d, response bit %d: DefendName answered=%v, HandleRedirect redirected=%v; only name-query requests (opcode 0, R=0) are theirs", opc, rbit>>15, defended, redirected)
+				}
+			}})
+		}
+	}
+	return out
 }
